@@ -3,6 +3,7 @@
 package clients
 
 import (
+	"context"
 	"github.com/mimecast/dtail/internal/clients/handlers"
 	"github.com/mimecast/dtail/internal/mapr"
 )
@@ -26,7 +27,9 @@ func VerifNewMaprClient(queryStr string, cumulative bool) (*MaprClient, error) {
 	if err != nil {
 		return nil, err
 	}
-	return &MaprClient{query: query, cumulative: cumulative, globalGroup: mapr.NewGlobalGroupSet()}, nil
+	c := &MaprClient{query: query, cumulative: cumulative, globalGroup: mapr.NewGlobalGroupSet()}
+	c.baseClient.stats = newTailStats(0)
+	return c, nil
 }
 
 // VerifHandler is makeHandler.
@@ -34,3 +37,6 @@ func (c MaprClient) VerifHandler(server string) handlers.Handler { return c.make
 
 // VerifReport is reportResults.
 func (c *MaprClient) VerifReport(finalResult bool) { c.reportResults(finalResult) }
+
+// VerifStart is Start (with no connections it goes straight to what a client does when its last connection has ended).
+func (c *MaprClient) VerifStart(ctx context.Context) int { return c.Start(ctx, nil) }
